@@ -278,7 +278,7 @@ def run(tier, seed):
     bdir = build.build("asan")
     chk = core.Check(PID, tier, seed, level="fault_enumeration")
     rd = core.record_dir(PID) if tier == "thorough" else None
-    sh = core.parallel(shard_fn, seed=seed, tier=tier, exe=bdir + "/jcdrv", ndocs=12000 if tier == "quick" else 60000, nenum=160 if tier == "quick" else 2000)
+    sh = core.parallel(shard_fn, seed=seed, tier=tier, exe=bdir + "/jcdrv", ndocs=36000 if tier == "quick" else 300000, nenum=480 if tier == "quick" else 6000)
     chk.absorb(sh)
     if rd:
         os.environ.pop("VF_RECORD_DIR", None)
